@@ -30,8 +30,8 @@ EDTFrame(dt) == EncGearSpecial(EDTRow, dt)
 CmdWire(c) == (IF c.dt # 0 THEN << <<EDTFrame(c.dt), 16>> >> ELSE <<>>) \o << <<c.frame, c.bits>> >>
 RECURSIVE Flatten(_)
 Flatten(ss) == IF ss = <<>> THEN <<>> ELSE ss[1] \o Flatten(Tail(ss))
-\* units of a caller: single sends are one unit per command, a sequence is one unit
-Units(cl) == IF cl.mode = "send" THEN [k \in 1..Len(cl.unit) |-> CmdWire(cl.unit[k])]
+\* units of a caller: single sends (and power-supply requests) are one unit per command, a sequence is one unit
+Units(cl) == IF cl.mode \in {"send", "power"} THEN [k \in 1..Len(cl.unit) |-> CmdWire(cl.unit[k])]
              ELSE << Flatten([k \in 1..Len(cl.unit) |-> CmdWire(cl.unit[k])]) >>
 
 \* positions in the wire log of the entries written by a task
